@@ -195,6 +195,8 @@ func (s c05Sel) coq() string {
 		return fmt.Sprintf("(RSel (SMethod %s (mkM %s %s %s %s)))", coqNatList(s.Path), coqStr(s.Meth.Name), coqBool(s.Meth.Ptr), coqN(s.Meth.Sig), coqN(s.Meth.ID))
 	case "ambig":
 		return "RAmbig"
+	case "crash":
+		return "RCrash"
 	}
 	return "RNone"
 }
@@ -318,10 +320,36 @@ func (u *c05Univ) ownerOfFieldPath(t int, path []int) int {
 	return cur
 }
 
+// yBinFieldReturns: twin of Model.y_binfield_returns (lookupBinField has no seen set).
+func (u *c05Univ) yBinFieldReturns(t int, fuel int) bool {
+	if fuel == 0 {
+		return false
+	}
+	for _, f := range u.Structs[t].Fields {
+		if f.Embed && f.Typ >= 0 && !u.yBinFieldReturns(f.Typ, fuel-1) {
+			return false
+		}
+	}
+	return true
+}
+
+// cyclic: some struct reaches an embedding cycle (every program of such a universe runs in a child process).
+func (u *c05Univ) cyclic() bool {
+	for t := range u.Structs {
+		if !u.yBinFieldReturns(t, len(u.Structs)+1) {
+			return true
+		}
+	}
+	return false
+}
+
 // ySelect: twin of Model.y_select (the selectorExpr case of cfg.go).
 func (u *c05Univ) ySelect(t int, name string) c05Sel {
 	ti := u.yField(t, name, map[int]bool{})
 	m, owner, mp := u.yMethod(t, name, map[int]bool{})
+	if len(ti) == 0 && !u.yBinFieldReturns(t, len(u.Structs)+1) {
+		return c05Sel{Kind: "crash"}
+	}
 	if len(ti) > 0 {
 		if m != nil {
 			d := len(mp)
@@ -355,6 +383,22 @@ func (u *c05Univ) pathThroughPtr(t int, path []int) bool {
 	for _, i := range path {
 		f := u.Structs[cur].Fields[i]
 		if f.Ptr {
+			return true
+		}
+		cur = f.Typ
+	}
+	return false
+}
+
+// pathCrossesForwardPtr: the instance literals leave pointers to later types nil.
+func (u *c05Univ) pathCrossesForwardPtr(t int, path []int) bool {
+	cur := t
+	for _, i := range path {
+		f := u.Structs[cur].Fields[i]
+		if f.Typ < 0 {
+			return false
+		}
+		if f.Ptr && f.Typ > cur {
 			return true
 		}
 		cur = f.Typ
